@@ -391,7 +391,7 @@ def run_api_level(ctx, tmp, thorough):
 
 # ---------------------------------------------------------------------------------------------
 # FTP level
-FTP_INIT = [["d", [["f", b"abc"], ["e", []]]], ["g", b"xyz12"], ["k", []]]
+FTP_INIT = [["d", [["f", b"abc"], ["e", []]]], ["g", b"xyz12"], ["k", []], [".h", b"h"]]
 FTP_PATHS = ["d", "d/f", "d/e", "g", "k", "m", "m/n", "g/x", "d/e/h", "k/d"]
 CMD_IDX = {"MKD": 0, "RMD": 1, "DELE": 2, "RNFR": 3, "RNTO": 4, "STOR": 5, "APPE": 6, "RETR": 7, "LIST": 8, "MLSD": 9, "CWD": 10, "MLST": 11}
 
